@@ -16,6 +16,11 @@ Definition mon_order_shards_exist (s : State) : bool :=
   all_z (orders s) (fun _ o => forallb (fun id => bool_decide (is_Some (shards s !! id))) (o_shards o)).
 Definition mon_order_shards_nodup (s : State) : bool :=
   all_z (orders s) (fun _ o => bool_decide (NoDup (o_shards o))).
+(* root cause of finding D23: a renewal order copies a shard that is still being migrated *)
+Definition mon_renewal_no_migrating (s : State) : bool :=
+  all_z (orders s) (fun _ o =>
+    negb (o_op o =? 3) ||
+    forallb (fun id => match shards s !! id with Some sh => negb (sh_status sh =? ShardMigrating) | None => true end) (o_shards o)).
 Definition mon_shard_has_order (s : State) : bool :=
   all_z (shards s) (fun id sh => match orders s !! sh_order sh with
                                 | Some o => inZ id (o_shards o)
@@ -145,6 +150,7 @@ Definition mon_timeouts_future (h : Z) (s : State) : bool := all_z (timeouts s) 
 
 Definition app_monitors (boundary : bool) (h : Z) (s : State) : list (string * bool) :=
   [ ("ref.order_shards_exist", mon_order_shards_exist s);
+    ("ref.renewal_lists_migrating", mon_renewal_no_migrating s);
     ("ref.order_shards_nodup", mon_order_shards_nodup s);
     ("ref.shard_has_order", mon_shard_has_order s);
     ("ref.completed_scheduled", mon_completed_scheduled s);
